@@ -24,3 +24,32 @@ Theorem C26_balanced_code_ends_at_first_top_level_terminator : forall s term res
   scan (s ++ term :: rest) = Stop (length s).
 Proof. exact scan_balanced. Qed.
 Print Assumptions C26_balanced_code_ends_at_first_top_level_terminator.
+
+(* the composition: code built from ordinary characters, nested delimiters and lexical units that the
+   scanner skips as a whole ends at the first top-level terminator *)
+Theorem C26_code_with_units_ends_at_first_top_level_terminator : forall s term rest,
+  ucode false s (term :: rest) -> terminator term -> scan (s ++ term :: rest) = Stop (length s).
+Proof. exact scan_units. Qed.
+Print Assumptions C26_code_with_units_ends_at_first_top_level_terminator.
+
+(* the units: each literal, comment or lifetime is skipped as a whole (the side conditions are the
+   lexical facts of Rust: an unescaped closing quote, no newline inside a line comment, ...) *)
+Theorem C26_units_are_skipped : forall rest,
+  (forall body, strbody body -> skips (QUOTE :: body ++ [QUOTE]) rest) /\
+  (forall n body, ~ In QUOTE body -> skips (LR :: repeat HASH n ++ QUOTE :: body ++ QUOTE :: repeat HASH n) rest) /\
+  (forall body, cbody body -> skips (SLASH :: STAR :: body ++ [STAR; SLASH]) rest) /\
+  (forall c, c <> BSL -> rest <> [] -> skips [APOS; c; APOS] rest) /\
+  (forall c body, ~ In APOS body -> rest <> [] -> skips (APOS :: BSL :: c :: body ++ [APOS]) rest) /\
+  (forall c d r, rest = d :: r -> c <> BSL -> d <> APOS -> skips [APOS; c] rest) /\
+  (forall body r, rest = NL :: r -> ~ In NL body -> skips (SLASH :: SLASH :: body) rest).
+Proof.
+  intros rest. repeat split.
+  - intros; apply skips_string; assumption.
+  - intros; apply skips_raw; assumption.
+  - intros; apply skips_block_comment; assumption.
+  - intros; apply skips_char; assumption.
+  - intros; apply skips_escaped_char; assumption.
+  - intros c d r -> Hc Hd. apply skips_lifetime; assumption.
+  - intros body r -> Hb. apply skips_line_comment; assumption.
+Qed.
+Print Assumptions C26_units_are_skipped.
